@@ -208,6 +208,29 @@ def mon_progress(case, lines):
     return None
 
 
-MONITORS = {'destroyed_twice': mon_destroyed_twice, 'destroyed_while_owned': mon_destroyed_while_owned,
+
+def mon_op_unlocked(case, lines):
+    """C16 (locked class): destroyObjects / destroyObjects(delay) / size / addObjectsToBeDestroyed that complete with a
+    value other than size_t(-1) must have acquired destructionLock at least once: otherwise they read or changed the
+    shared vector without the lock (concurrent add / size / destroyObjects could lose or duplicate an object)"""
+    if not case['cfg'] or case['cfg'][0] != 1:
+        return None
+    cur, got, depth = {}, {}, {}
+    for i, l in enumerate(lines):
+        if len(l) != 5 or l[0] < 0:
+            continue
+        t, k, o, v, mo = l
+        if k == K['INVOKE']:
+            cur[t], got[t] = v, False
+        elif k == K['LOCK'] or (k == K['TRYLOCK_FOR'] and v == 1):
+            got[t] = True
+        elif k == K["RET"] and cur.get(t) in (DESTROY, DESTROY_DELAY, SIZE):
+            if not got.get(t) and v != -1:
+                return 'thread %d: operation %d returned %d at trace line %d without ever acquiring the container lock' % (t, cur[t], v, i)
+            cur.pop(t, None)
+    return None
+
+
+MONITORS = {'op_unlocked': mon_op_unlocked, 'destroyed_twice': mon_destroyed_twice, 'destroyed_while_owned': mon_destroyed_while_owned,
             'user_code_under_lock': mon_user_code_under_lock, 'callback': mon_callback, 'ledger': mon_ledger,
             'progress': mon_progress}
